@@ -598,9 +598,7 @@ class PendingAssign(PendingNode[Assign | AnnAssign]):
 
     def assign_subscript(self, target: Subscript, value: expr):
         # names inside the index have to be rewritten like everywhere else
-        _slice = expr_transf(self.nsp, target.slice)
-        if isinstance(_slice, Slice):
-            _slice = utils.convert_slice(_slice)
+        _slice = utils.convert_index(expr_transf(self.nsp, target.slice))
 
         return Call(
             func=Attribute(
@@ -781,9 +779,7 @@ class PendingAugAssign(PendingNode[AugAssign]):
             target = self.node.target
             subscript_parent = expr_transf(self.nsp, target.value)
 
-            slice_expr = target.slice
-            if isinstance(slice_expr, Slice):
-                slice_expr = utils.convert_slice(slice_expr)
+            slice_expr = utils.convert_index(target.slice)
 
             # save slice expr to a tmp
             return_list.append(
